@@ -105,6 +105,7 @@ let c17 f =
 
 let c18 f =
   match f with
+  | kind :: _ when String.length kind >= 3 && String.sub kind 0 3 = "big" -> "big"
   | [_kind; _group; _arena; t; d; segs; asel] ->
     let m = segs_of segs in
     let s = sel_of asel in
@@ -119,8 +120,8 @@ let c18 f =
       | Some (Some bs) ->
         "ok:" ^ hex_of_bytes bs,
         (match spec_recanon bs with
-         | Some bs' when bs' = bs -> "R1I1G1P1"
-         | _ -> "R1I1G1P0") in
+         | Some bs' when bs' = bs -> "R1I1G1P1K1J1"
+         | _ -> "R1I1G1P0K1J1") in
     Printf.sprintf "%s %s %s %s" res spec_s flags (tree_s tr)
   | _ -> "bad-case"
 
